@@ -1,6 +1,63 @@
-(* placeholder; theorems follow *)
-From Coq Require Import String List.
-From Glom Require Import Base.PyVal Model.Interp.
-Theorem head_mode_nil : head_mode nil = AUTO.
-Proof. reflexivity. Qed.
-Print Assumptions head_mode_nil.
+(* Properties/C03.v — auto-mode restructuring is compositional in its sub-specs. *)
+From Coq Require Import String ZArith Bool List.
+From Glom Require Import Base.PyVal Model.TEval Model.Interp Proofs.InterpProofs.
+Import ListNotations.
+Local Open Scope string_scope.
+Local Open Scope list_scope.
+
+(* glom(t, (a, b)) = glom(glom(t, a), b) for every first step a that is not itself a scope binder (it may contain
+   binders, mode wrappers, anything): the second step is evaluated exactly as if it stood alone, in the chain's own
+   mode; a SKIP result omits the step, STOP ends the chain.  Stated one level down so that both sides run with the
+   same fuel; [own] is the chain's own frame. *)
+Theorem tuple_compose : forall fuel own sc t a b,
+  is_binder a = false -> farg own = false ->
+  eqM (chain_loop true (glom_ true (S fuel)) (fmode own) [a; b] (own :: sc) t)
+      (let! (v, _) := glom_ true (S fuel) (own :: sc) t a in
+       match v with
+       | VStop => ret t
+       | VSkip => let! (w, _) := glom_ true (S fuel) (own :: sc) t b in ret (keep_if_signal t w)
+       | _ => let! (w, _) := glom_ true (S fuel) (own :: sc) v b in ret (keep_if_signal v w) end).
+Proof. exact tuple_compose_lemma. Qed.
+Print Assumptions tuple_compose.
+
+(* a dict spec: every value spec evaluated once, left to right, on the same target under the same scope; the result
+   carries the spec's keys in the spec's order, SKIP results dropped *)
+Theorem dict_spec_law : forall rec sc t ks ss acc, length ks = length ss ->
+  eqM (dict_loop rec sc t (combine (map SStr ks) ss) acc)
+      (let! vs := each_loop rec sc t ss in ret (dict_build ks vs acc)).
+Proof. exact dict_spec_law. Qed.
+Print Assumptions dict_spec_law.
+
+(* a list spec: the sub-spec mapped over the target's items in order, SKIP dropped, STOP ends the iteration *)
+Theorem list_spec_law : forall rec sc sub items acc,
+  eqM (list_loop rec sc sub items acc) (let! vs := list_ref rec sc sub items in ret (rev acc ++ vs)).
+Proof. exact list_spec_law. Qed.
+Print Assumptions list_spec_law.
+
+(* Coalesce: the first alternative that is neither skipped by exception nor by value wins, and the state (call log)
+   afterwards is the one right after that alternative — later alternatives are not evaluated *)
+Theorem coalesce_first_success : forall rec sc t skip sx pre s post st st1 st2 v f,
+  all_skipped rec sc t skip sx pre st st1 ->
+  rec sc t s st1 = (Ok (v, f), st2) -> skip_fn skip v = false ->
+  coalesce_loop rec sc t (pre ++ s :: post) skip sx st = (Ok (Some v), st2).
+Proof. exact coalesce_first_success_lemma. Qed.
+Print Assumptions coalesce_first_success.
+
+Theorem coalesce_all_skipped : forall rec sc t skip sx ss st st1,
+  all_skipped rec sc t skip sx ss st st1 -> coalesce_loop rec sc t ss skip sx st = (Ok None, st1).
+Proof. exact coalesce_all_skipped_lemma. Qed.
+Print Assumptions coalesce_all_skipped.
+
+(* the whole interpreter: the outcome of any spec depends on the scope only through the head frame's mode flags and
+   the lookup functions — the lemma behind the composition laws *)
+Theorem glom_respects_scope : forall fixed fuel, rec_respects (glom_ fixed fuel).
+Proof. exact glom_respects_scope. Qed.
+Print Assumptions glom_respects_scope.
+
+(* non-vacuity *)
+Definition ex_t : val := VDict 1 false [(VStr "a", VDict 2 false [(VStr "b", VInt 7)]); (VStr "l", VList 3 [VInt 1; VInt 2; VInt 3])].
+Example ex_tuple : fst (glom_top true [] ex_t (STuple [SStr "a"; SStr "b"])) = Ok (VInt 7).
+Proof. vm_compute. reflexivity. Qed.
+Example ex_dict_skip : fst (glom_top true [] ex_t (SDict false [(SStr "x", SStr "a.b"); (SStr "y", STuple [SStr "l"; SList [SFn FSkipIfOdd]])]))
+  = Ok (VDict 0 false [(VStr "x", VInt 7); (VStr "y", VList 0 [VInt 2])]).
+Proof. vm_compute. reflexivity. Qed.
